@@ -194,6 +194,16 @@ func (w *World) CheckObject(fm *FileModel, s *Spec, structName string, path stri
 					}
 				}
 				if name == "" {
+					// a referenced branch: `type X_i = Def` — the definition's struct is the branch type
+					for tn, td := range fm.Types {
+						if td.Alias && strings.HasSuffix(tn, fmt.Sprintf("_%d", i)) {
+							if st := fm.Structs[fm.Resolve(tn)]; st != nil && st.FieldByTag(b.Props[0].Text(), w.tagKey()) != nil {
+								name = st.Name
+							}
+						}
+					}
+				}
+				if name == "" {
 					out = append(out, Issue{Rule: "A-ANYOF", Construct: "anyOf branch without its own type", Msg: fmt.Sprintf("%s: branch %d of the anyOf has no struct type of its own (suffix _%d)", path, i, i)})
 					continue
 				}
@@ -469,6 +479,29 @@ func (w *World) checkValue(fm *FileModel, s *Spec, S *Struct, F *Field, path str
 			continue
 		}
 		out = append(out, fm.CompareRejects(w, m, F.Name, exp, isPtr, what)...)
+	}
+	// --min-sized-ints on array ELEMENTS: without the flag element bounds are not validated at all ([]int), so an element type
+	// narrower than 64 bits makes the decoder reject elements the plain build accepts
+	if w.Cfg.MinSizedInts && w.SizedCheck && s.Kind == "array" && s.Items != nil && s.Items.Kind == "integer" {
+		et := strings.TrimPrefix(strings.TrimPrefix(fm.Underlying(ft), "[]"), "*")
+		for _, T := range sizedTypes {
+			if T.name == et && T.name != "int" && T.name != "int64" {
+				loops := false
+				for _, mn := range w.formats() {
+					if m := fm.Methods[S.Name+"."+mn]; m != nil {
+						for _, r := range m.Rejects {
+							if r.Field == F.Name && len(r.Loops) > 0 && r.Kind == "cmp" && r.Len == "" {
+								loops = true
+							}
+						}
+					}
+				}
+				if !loops {
+					out = append(out, Issue{Rule: "A-SIZED", Construct: "array elements narrowed to a sized type although element bounds are never validated",
+						Msg: fmt.Sprintf("%s: elements are %s with the flag and int without; no element check exists in either build, so an out-of-range element is accepted without the flag and refused (decode error) with it", what, et)})
+				}
+			}
+		}
 	}
 	// nested object / array of objects: recurse
 	switch {
@@ -781,7 +814,7 @@ func (w *World) anyOfIssues(fm *FileModel, s *Spec, path string) []Issue {
 		// every branch type must have the method that is called
 		for i := 0; i < n; i++ {
 			bt := fmt.Sprintf("%s_%d", merged.Name, i)
-			if fm.Types[bt] != nil && fm.Methods[bt+"."+mn] == nil {
+			if fm.Types[bt] != nil && fm.Methods[fm.Resolve(bt)+"."+mn] == nil {
 				out = append(out, Issue{Rule: "A-ANYOF", Construct: "anyOf branch type without the unmarshaler that is called on it", Msg: fmt.Sprintf("%s: %s has no %s", path, bt, mn)})
 			}
 		}
